@@ -20,8 +20,27 @@ def main():
     modname, fname, case_json, cond_timeout = sys.argv[1:5]
     path_timeout = float(sys.argv[5]) if len(sys.argv) > 5 and sys.argv[5] else None
     case = json.loads(case_json)
+    smt = sys.argv[6] if len(sys.argv) > 6 else ""
     t0 = time.time()
     res = {"module": modname, "fn": fname, "case": case, "status": "error"}
+    if smt:
+        # direct z3 obligation: the generator reads the real code and returns the verdict / a model
+        os.environ.pop("VERIF_SYMBOLIC", None)
+        try:
+            mod = importlib.import_module(modname)
+            mod.CASE = case
+            out = getattr(mod, smt)(case)
+            res.update(out)
+            res.setdefault("paths", out.get("solver_calls", 0))
+            res.setdefault("confirmed_paths", 0)
+            res.setdefault("solver_unknown", 0)
+        except BaseException:
+            res["error"] = traceback.format_exc()[-4000:]
+        res["wall_s"] = round(time.time() - t0, 3)
+        res["cpu_s"] = round(time.process_time(), 3)
+        sys.stdout.write("\n@@RESULT@@" + json.dumps(res) + "\n")
+        sys.stdout.flush()
+        return
     try:
         import z3
         stats = {"solver_calls": 0, "solver_s": 0.0, "unknown": 0}
